@@ -1,11 +1,13 @@
 (* Properties/C10.v -- loop momenta: Gaussian map, covariance (V/2 lambda) L^-1, centre -L^-1 u.
    Statements only (MathComp; F any real closed field; the model's functions instantiated at
    the dictionary FS F; nL = p+1 loops, nE edges, nD dimensions, all arbitrary).
-   Hypothesis kept visible: the pivots of the model's Cholesky loop on L are positive (C15). *)
+   Assumed of the input: positive Feynman parameters and linearly independent signature columns
+   (a cycle basis); that the pivots of the model's Cholesky loop on L are then positive is proved
+   (Proofs/SPD.v). *)
 From Coq Require Import ZArith List.
 From mathcomp Require Import all_ssreflect all_algebra.
 From MT Require Import Model.Scalar Model.Vector Model.Matrix Model.Sampling
-  Proofs.CholSpec Proofs.LinAlg Proofs.Symanzik Proofs.SymBridge.
+  Proofs.CholSpec Proofs.LinAlg Proofs.Symanzik Proofs.SymBridge Proofs.SPD.
 Set Implicit Arguments.
 Unset Strict Implicit.
 Import GRing.Theory Num.Theory.
@@ -26,7 +28,8 @@ Hypothesis Hqs : List.length qs = nL.
 Hypothesis Hq : forall l, (l < nL)%N -> List.length (List.nth l qs nil) = nD.
 
 Let lm := compute_l_matrix (FS F) x sig nL.
-Hypothesis Hpiv : forall c : 'I_nL, 0 < pivot (FS F) nL lm c.
+Hypothesis Hxpos : forall e : 'I_nE, 0 < List.nth e x 0.
+Hypothesis Hfree : row_free (Sm F nE nL sig)^T.
 Let dc := decomp_fields (FS F) nL lm.
 Let us := compute_u_vectors (FS F) nD x sig nL shifts.
 Let vv := compute_v_polynomial (FS F) x us nL (d_inverse dc) shifts masses.
@@ -44,6 +47,7 @@ Theorem C10_energy :
       (\sum_(d < nD) ((S *m Km + Pm nE nD shifts) e d) ^+ 2 + (List.nth e masses 0) ^+ 2)
   = vv + (vv / lam / 2%:R) * (\sum_(l < nL) \sum_(d < nD) (List.nth d (List.nth l qs nil) 0) ^+ 2).
 Proof.
+  have Hpiv : forall c : 'I_nL, 0 < pivot (FS F) nL lm c by exact: (l_matrix_pivots_pos Hsig Hxpos Hfree).
   have H := model_energy_identity Hsig Hx Hm Hsh Hshift Hqs Hq Hpiv Hpos.
   rewrite -H; apply: eq_bigr => e _; by rewrite !mxE.
 Qed.
